@@ -37,7 +37,7 @@ type Event map[string]interface{}
 
 // Outcome what the harness upstream answers
 type Outcome struct {
-	Kind string // cacheable, uncacheable, error, panic
+	Kind string // cacheable, uncacheable, error, panic, raw (all headers given by Header)
 	TTL  int
 	// Lifetime the lifetime the answer grants by the property's rule, when it is not simply TTL
 	Lifetime int
@@ -61,6 +61,8 @@ type ReqInfo struct {
 	HasAge    bool
 	DecNow    int64
 	Fetched   int
+	Contacts  int
+	Case      interface{} // decision-table case this request belongs to (free-running mode)
 	lastLabel string
 	dead      bool
 	sproc     *sched.Proc
@@ -326,23 +328,29 @@ func (w *World) kname(concrete string) string {
 
 // Result what the client saw
 type Result struct {
-	Rid    int
-	Status int
-	Label  string
-	Age    int
-	Ver    int
-	Body   []byte
-	Header http.Header
-	Panic  interface{}
+	Rid      int
+	Status   int
+	Contacts int
+	Label    string
+	Age      int
+	Ver      int
+	Body     []byte
+	Header   http.Header
+	Panic    interface{}
 }
 
 // Do runs one request through the middleware chain on the calling goroutine
 // and emits Start/End (and Age) events.  proc: scheduler proc name ("" none).
 func (w *World) Do(proc, disp, method, host, uri string, hdr http.Header) *Result {
+	return w.DoCase(proc, disp, method, host, uri, hdr, nil)
+}
+
+// DoCase like Do, with a decision-table case attached to the request (the upstream Policy sees it)
+func (w *World) DoCase(proc, disp, method, host, uri string, hdr http.Header, cs interface{}) *Result {
 	gid := sched.Gid()
 	w.mu.Lock()
 	w.nextRid++
-	ri := &ReqInfo{Rid: w.nextRid, Proc: proc, Disp: disp, Method: method, Gid: gid, AgeNow: -1}
+	ri := &ReqInfo{Rid: w.nextRid, Proc: proc, Disp: disp, Method: method, Gid: gid, AgeNow: -1, Case: cs}
 	ri.Key = w.kname(KeyOf(method, host, uri))
 	w.reqs[ri.Rid] = ri
 	w.reqGid[gid] = ri
@@ -378,6 +386,7 @@ var verRe = regexp.MustCompile(`v=(\d+)`)
 
 func (w *World) finish(ri *ReqInfo, code int, h http.Header, body []byte, res *Result) {
 	res.Status = code
+	res.Contacts = ri.Contacts
 	res.Header = h
 	res.Body = body
 	res.Label = h.Get("X-Status")
@@ -658,6 +667,7 @@ func (w *World) upstreamHandler(rw http.ResponseWriter, req *http.Request) {
 	w.mu.Lock()
 	ri := w.reqs[rid]
 	if ri != nil {
+		ri.Contacts++
 		w.emitLocked(Event{"op": "UpStart", "r": ri.Rid})
 	}
 	w.mu.Unlock()
@@ -708,6 +718,8 @@ func (w *World) upstreamHandler(rw http.ResponseWriter, req *http.Request) {
 	case "cacheable":
 		ttl = out.TTL
 		h.Set("Cache-Control", "max-age="+strconv.Itoa(out.TTL))
+	case "raw":
+		ttl = out.Lifetime
 	default:
 		h.Set("Cache-Control", "no-cache")
 	}
